@@ -45,7 +45,10 @@ int main(void)
 		if (sscanf(line, "dec %u %u %u %llu %llu %n", &kind, &flags, &mode, &seed, &memlimit, &off) < 5) { printf("ERR\n"); fflush(stdout); continue; }
 	parsed:;
 		char *h = line + off; size_t n = 0;
-		if (*h != '-') while (h[0] && h[1] && h[0] != '\n') { in[n++] = (uint8_t)(hexv(h[0]) << 4 | hexv(h[1])); h += 2; }
+		if (*h != '-') while (h[0] && h[1] && h[0] != '\n' && h[0] != ' ') { in[n++] = (uint8_t)(hexv(h[0]) << 4 | hexv(h[1])); h += 2; } else h++;
+		// optional second hex field: the input of the earlier use in a re-initialisation history (mode + 16)
+		static uint8_t in2[1 << 20]; size_t n2 = 0;
+		if (*h == ' ') { h++; while (h[0] && h[1] && h[0] != '\n' && n2 < sizeof in2) { in2[n2++] = (uint8_t)(hexv(h[0]) << 4 | hexv(h[1])); h += 2; } }
 		rng_s = seed * 2654435761u + 1;
 		lzma_stream s = LZMA_STREAM_INIT; lzma_ret r; lzma_index *idx7 = NULL;
 		if (memlimit == 0) memlimit = UINT64_MAX;
@@ -79,12 +82,13 @@ int main(void)
 			// finished output stays queued), abandon it, initialise again on the same lzma_stream
 			mode -= 16; alarm(kind == 1 ? 25 : 120);
 			unsigned k = 1 + rnd() % 25; size_t pip = 0; uint8_t tmp[8192];
-			size_t stop = n ? rnd() % (n + 1) : 0;
+			const uint8_t *pin = n2 ? in2 : in; size_t pn = n2 ? n2 : n;
+			size_t stop = pn ? (n2 && rnd() % 2 ? pn : rnd() % (pn + 1)) : 0; if (n2 && stop == pn) k = 100000;
 			for (unsigned c = 0; c < k && pip < stop; c++) {
 				size_t il = rnd() % 3 == 0 ? stop - pip : rnd() % 5000; if (il > stop - pip) il = stop - pip;
 				size_t ol = rnd() % 4 == 0 ? sizeof tmp : rnd() % 300;
-				uint8_t *ib = malloc(il ? il : 1); memcpy(ib, in + pip, il);
-				s.next_in = ib; s.avail_in = il; s.next_out = tmp; s.avail_out = ol;
+				uint8_t *ib = malloc(il ? il : 1); memcpy(ib, pin + pip, il);
+				s.next_in = ib; s.avail_in = il; s.next_out = tmp; s.avail_out = ol ? ol : (n2 ? 1 : 0);
 				lzma_ret pr = lzma_code(&s, LZMA_RUN);
 				pip += il - s.avail_in; free(ib);
 				if (pr != LZMA_OK && pr != LZMA_BUF_ERROR && pr != LZMA_NO_CHECK && pr != LZMA_UNSUPPORTED_CHECK && pr != LZMA_GET_CHECK) break;
@@ -155,9 +159,9 @@ int main(void)
 			size_t il, ol;
 			switch (mode) {
 			case 0: il = n - ip; ol = OUTCAP - op; break;
-			case 1: il = (n - ip) ? 1 : 0; ol = OUTCAP - op; break;
+			case 1: il = (n - ip) ? 1 : 0; ol = 1 << 16; break;   // ample for one input byte; a 24 MiB buffer per call made ASan runs 100x slower
 			case 2: il = n - ip; ol = 1; break;
-			case 4: il = (ip < seed && seed < n) ? seed - ip : n - ip; ol = OUTCAP - op; break;
+			case 4: il = (ip < seed && seed < n) ? seed - ip : n - ip; ol = 1 << 18; break;
 			default: il = rnd() % 7 == 0 ? 0 : rnd() % 37; ol = rnd() % 7 == 0 ? 0 : rnd() % 53;
 			         if (rnd() % 11 == 0) il = n; if (rnd() % 13 == 0) ol = 70000; break;
 			}
